@@ -78,7 +78,7 @@ ROLES = {
         # further ALU forms (only forms that have an ISA database entry: for others the default rule IS the specified behaviour)
         ("ldr x3, [x1], #8", "g1", "g3 g1"), ("and x1, x2, #255", "g2", "g1"), ("orr x1, x2, x3", "g2 g3", "g1"),
         ("eor x1, x2, x3", "g2 g3", "g1"), ("lsr x4, x5, #2", "g5", "g4"), ("mul x0, x1, x2", "g1 g2", "g0"), ("neg x1, x2", "g2", "g1"),
-        ("sub x1, x2, x3", "g2 g3", "g1"), ("fsub d0, d1, d2", "v1 v2", "v0"), ("fdiv d0, d1, d2", "v1 v2", "v0"), ("adds x1, x2, #1", "g2", "g1"),
+        ("tst x1, x4", "g1 g4", ""), ("tst w1, w4", "g1 g4", ""), ("tst x1, #255", "g1", ""), ("sub x1, x2, x3", "g2 g3", "g1"), ("fsub d0, d1, d2", "v1 v2", "v0"), ("fdiv d0, d1, d2", "v1 v2", "v0"), ("adds x1, x2, #1", "g2", "g1"),
     ],
 }
 
@@ -101,9 +101,17 @@ FLAGROLES = {
 }
 
 
+# AArch64 (Arm ARM): the flag-setting forms write N, Z, C, V and read none of them; add / subtract with carry read C
+NZCV = "N Z C V"
+FLAGROLES_A64 = {
+    "tst x1, x4": ("", NZCV), "tst w4, w5": ("", NZCV), "tst x1, #255": ("", NZCV), "cmp x1, x3": ("", NZCV), "subs x1, x1, #1": ("", NZCV),
+    "adds x1, x2, #1": ("", NZCV), "add x1, x2, x3": ("", ""), "adcs x1, x2, x3": ("C", NZCV), "sbcs x1, x2, x3": ("C", NZCV),
+}
+
+
 def check_roles(isa, arch):
     fails = []
-    for line, (frd, fwr) in (FLAGROLES.items() if isa == "x86" else ()):
+    for line, (frd, fwr) in (FLAGROLES if isa == "x86" else FLAGROLES_A64).items():
         desc = dict(isa=isa, arch=arch, kernel=[line])
         try:
             mm, kernel, dg = analyse(isa, arch, [line], True)
